@@ -142,9 +142,11 @@ def _get_mypy_asts(
         elif ast.path in files:
             module_ast.append(ast)
 
-    # Declarations inside an __init__.py only see the reexports of the packages that were checked before. We sort the
-    # packages, so that the result does not depend on the order in which the file system lists the files.
+    # Declarations inside an __init__.py only see the reexports of the packages that were checked before, and classes
+    # with the same name are searched in the order in which their modules were checked. We sort the packages and the
+    # modules, so that the result does not depend on the order in which the file system lists the files.
     package_ast.sort(key=lambda package: package.fullname)
+    module_ast.sort(key=lambda module: module.fullname)
 
     # The packages need to be checked first, since we have to get the reexported data first
     return package_ast + module_ast
